@@ -174,7 +174,61 @@ func LoadCorpus(repo string) (*Corpus, error) {
 		return nil, fmt.Errorf("only %d of %d corpus documents could be built by the tree under test:\n%s", len(c.Valid), len(c.Docs), msg)
 	}
 	theCorpus = c
+	addTransplantVariants(c, 36)
 	return c, nil
+}
+
+// addTransplantVariants extends the corpus with documents that combine what the
+// shipped examples show separately: a source document plus one to three members
+// that other source documents carry at the same place (see sourceCatalog). Only
+// variants the tree under test calculates and validates are kept. The selection
+// is fixed (it does not depend on VERIF_SEED): the corpus is the same in every
+// process.
+func addTransplantVariants(c *Corpus, want int) {
+	base := append([]*Doc{}, c.Valid...)
+	if sourceCatalog() == nil || len(base) == 0 {
+		return
+	}
+	kept := 0
+	for i := 0; i < want*12 && kept < want; i++ {
+		d0 := base[(i*7)%len(base)]
+		if d0.IsEnv || strings.HasPrefix(d0.Name, "synthetic/") {
+			continue
+		}
+		doc := c04sourceDoc(d0)
+		if doc == nil || doc.K != 'o' {
+			continue
+		}
+		doc = doc.Clone()
+		r := RNG(20261003, int64(i), 77)
+		n := 0
+		for k, m := 0, 1+r.IntN(3); k < m; k++ {
+			if applyTransplant(doc, int64(r.IntN(1<<12)), int64(r.IntN(1<<12)), int64(r.IntN(4))) {
+				n++
+			}
+		}
+		if n == 0 {
+			continue
+		}
+		d := &Doc{Name: fmt.Sprintf("synthetic/transplant-%02d-of-%s", kept, strings.ReplaceAll(strings.TrimPrefix(d0.Name, "examples/"), "/", "-")), Src: doc.Encode(nil)}
+		buildDoc(d, len(c.Docs))
+		if d.Err != "" || d.PanicStack != "" {
+			if d.PanicStack != "" {
+				// a well-formed combination that panics is a finding (C14/corpus reports it)
+				c.Docs = append(c.Docs, d)
+				c.byName[d.Name] = d
+			}
+			continue
+		}
+		// it must be a fixpoint already here, or every world would start from a moving target
+		c.Docs = append(c.Docs, d)
+		c.byName[d.Name] = d
+		c.Valid = append(c.Valid, d)
+		if d.Kind == "invoice" {
+			c.Invoices = append(c.Invoices, d)
+		}
+		kept++
+	}
 }
 
 func buildDoc(d *Doc, i int) {
